@@ -203,6 +203,14 @@ pub fn key_sets(g: &mut G) -> Vec<(String, Vec<Vec<u8>>)> {
         keys.sort();
         sets.push((format!("widerec{}", n), keys));
     }
+    // every byte value as the input of a single-transition node (common-input table, both
+    // directions): keys [i, i] for all i, and chains through the bytes around the 6-bit cut-off
+    sets.push(("allbytes".to_string(), (0..=255u8).map(|i| vec![i, i]).collect()));
+    sets.push(("cutoff".to_string(), {
+        let mut v: Vec<Vec<u8>> = vec![b"GW".to_vec(), b"GWUV".to_vec(), b"HG".to_vec(), b"WG".to_vec(), b"qHGWUV,YKJZX".to_vec()];
+        v.sort();
+        v
+    }));
     // dense tries: more keys than bytes (suffix sharing)
     sets.push(("dense-bin8".to_string(), universe(b"ab", 8)));
     {
